@@ -440,6 +440,13 @@ pub fn garbage_byte(rng: &mut Rng) -> u8 {
 
 /// A whitespace-delimited run of garbage tokens (a "region"): leading and trailing
 /// whitespace included so that it can be dropped into any gap.
+/// Garbage tokens a lenient reader is tempted to treat specially: byte-order marks, bytes
+/// that other notions of "whitespace" include (VT, FF, the C0 separators, NEL, NBSP, LS).
+pub const SPECIAL_GARBAGE: &[&[u8]] = &[
+    b"\xef\xbb\xbf", b"\xff\xfe", b"\xfe\xff", b"\x0c", b"\x0b", b"\x0c\x0c", b"\x1c", b"\x1f", b"\xc2\x85",
+    b"\xc2\xa0", b"\xe2\x80\xa8", b"\x00", b"\x7f", b"\xef\xbb", b"\x08",
+];
+
 pub fn gen_garbage_region(rng: &mut Rng) -> Vec<u8> {
     let mut g = Vec::new();
     g.push(*rng.pick(&[b' ', b'\n', b'\n', b'\t']));
@@ -447,6 +454,11 @@ pub fn gen_garbage_region(rng: &mut Rng) -> Vec<u8> {
     for t in 0..tokens {
         if t > 0 {
             g.push(*rng.pick(&[b' ', b'\n']));
+        }
+        if rng.chance(1, 6) {
+            let t: &[u8] = *rng.pick(SPECIAL_GARBAGE);
+            g.extend_from_slice(t);
+            continue;
         }
         let n = rng.range(1, 4);
         for _ in 0..n {
@@ -515,7 +527,7 @@ pub const FILTER_EXPRS: &[&str] = &[
     "(> .n 0)", "(string? .s)", "(= .g \"a\")", "(and (number? .n) (< .n 100))",
     "(not (null? .h))", "true", "false", "(number? .id)", "(= (% .id 2) 0)", "(object? .)",
     "(array? .)", "(> (size .arr) 1)", "(!= .g \"b\")", "(or (string? .) (number? .))",
-    "(<= .id 5)", ".t", "(empty? .s)",
+    "(<= .id 5)", ".t", "(empty? .s)", "(= ^.g \"a\")", "(> ^.n 0)", "(string? ^.s)", "(= ^^.g \"a\")",
 ];
 
 pub const REGEX_FILTER_EXPRS: &[&str] = &["(match .s \"a\")", "(match .g \"^[ab]$\")", "(match .s .g)"];
@@ -893,7 +905,13 @@ pub fn gen_stream(rng: &mut Rng, w: &StreamWish) -> Vec<Piece> {
     if rng.chance(1, 4) {
         pieces.push(Piece::gap(gen_gap(rng, b"", b"", false)));
     }
-    garbage(rng, &mut pieces);
+    if garbage(rng, &mut pieces) && pieces.len() == 1 && rng.chance(1, 2) {
+        // the very first bytes of the stream are junk (a byte-order mark, say)
+        let b = &mut pieces[0].bytes.0;
+        while b.first().map_or(false, |c| matches!(c, b' ' | b'\t' | b'\n' | b'\r')) {
+            b.remove(0);
+        }
+    }
     for i in 0..n {
         pieces.push(Piece::rec(recs[i].clone(), i as u32));
         if i + 1 < n {
